@@ -18,23 +18,23 @@ import (
 
 // Feature bits.
 const (
-	FExtraParts  = 1 << iota // theme, fontTable, webSettings, settings
-	FCustomXML               // customXml item with its own rels
-	FNumbering               // numbering part + list paragraphs
-	FHeaderMedia             // header/footer with own .rels and media
-	FHyperlink               // external hyperlink relationship + w:hyperlink runs
-	FNestedRuns              // runs inside smartTag / ins / sdt / fldSimple
-	FBodyImages              // pictures with unusual media names
-	FSparseIDs               // non-contiguous relationship ids
-	FOddIDs                  // ids that are not rId<n>
-	FStylesNotRId1           // rId1 is the theme, styles has another id
-	FNoStyles                // no styles part / relationship at all
-	FUpperExt                // extension defaults in upper case
-	FTables                  // tables (with tblGrid)
-	FComments                // comments part
-	FDocProps                // docProps/core.xml + app.xml
-	FSectPr                  // section properties with page size/margins
-	FAllBits     = 1<<iota - 1
+	FExtraParts    = 1 << iota // theme, fontTable, webSettings, settings
+	FCustomXML                 // customXml item with its own rels
+	FNumbering                 // numbering part + list paragraphs
+	FHeaderMedia               // header/footer with own .rels and media
+	FHyperlink                 // external hyperlink relationship + w:hyperlink runs
+	FNestedRuns                // runs inside smartTag / ins / sdt / fldSimple
+	FBodyImages                // pictures with unusual media names
+	FSparseIDs                 // non-contiguous relationship ids
+	FOddIDs                    // ids that are not rId<n>
+	FStylesNotRId1             // rId1 is the theme, styles has another id
+	FNoStyles                  // no styles part / relationship at all
+	FUpperExt                  // extension defaults in upper case
+	FTables                    // tables (with tblGrid)
+	FComments                  // comments part
+	FDocProps                  // docProps/core.xml + app.xml
+	FSectPr                    // section properties with page size/margins
+	FAllBits       = 1<<iota - 1
 )
 
 // Result describes what was produced, for the oracles.
@@ -350,7 +350,7 @@ func Build(seed uint64, flags int) *Result {
 		hid := b.addRel(nsR+"/header", "header1.xml", "")
 		fid := b.addRel(nsR+"/footer", "footer1.xml", "")
 		b.put("word/header1.xml", `<?xml version="1.0" encoding="UTF-8"?><w:hdr xmlns:w="`+nsW+`" xmlns:r="`+nsR+`" xmlns:wp="http://schemas.openxmlformats.org/drawingml/2006/wordprocessingDrawing" xmlns:a="http://schemas.openxmlformats.org/drawingml/2006/main" xmlns:pic="http://schemas.openxmlformats.org/drawingml/2006/picture"><w:p><w:r><w:t>foreign header</w:t></w:r><w:r><w:drawing><wp:inline><wp:extent cx="100" cy="100"/><wp:docPr id="9" name="logo"/><a:graphic><a:graphicData uri="http://schemas.openxmlformats.org/drawingml/2006/picture"><pic:pic><pic:nvPicPr><pic:cNvPr id="9" name="logo"/><pic:cNvPicPr/></pic:nvPicPr><pic:blipFill><a:blip r:embed="rId1"/></pic:blipFill><pic:spPr/></pic:pic></a:graphicData></a:graphic></wp:inline></w:drawing></w:r></w:p></w:hdr>`)
-		b.put("word/_rels/header1.xml."+relsExt, relsXML([]rel{{"rId1", nsR + "/image", "media/"+logo+"", ""}}))
+		b.put("word/_rels/header1.xml."+relsExt, relsXML([]rel{{"rId1", nsR + "/image", "media/" + logo + "", ""}}))
 		b.put("word/media/"+logo+"", string(pngBytes(7)))
 		b.def("png", "image/png")
 		b.put("word/footer1.xml", `<?xml version="1.0" encoding="UTF-8"?><w:ftr xmlns:w="`+nsW+`"><w:p><w:r><w:t>foreign footer</w:t></w:r></w:p></w:ftr>`)
@@ -374,7 +374,30 @@ func Build(seed uint64, flags int) *Result {
 	doc := fmt.Sprintf(`<?xml version="1.0" encoding="UTF-8" standalone="yes"?>`+"\n"+`<%s %s xmlns:r="%s" xmlns:wp="http://schemas.openxmlformats.org/drawingml/2006/wordprocessingDrawing" xmlns:a="http://schemas.openxmlformats.org/drawingml/2006/main" xmlns:pic="http://schemas.openxmlformats.org/drawingml/2006/picture"><%s>%s</%s></%s>`,
 		b.w("document"), nsdecl, nsR, b.w("body"), body.String(), b.w("body"), b.w("document"))
 	b.put("word/document.xml", doc)
-	b.put("word/_rels/document.xml."+relsExt, relsXML(b.docRel))
+	// the order of the Relationship elements in a relationship part means nothing and differs between producers (Word lists the
+	// main document last in _rels/.rels): a separate stream decides it, so that everything drawn above stays as it was
+	ord := sim.NewRand(seed ^ 0x6f7264657273)
+	permute := func(rs []rel) []rel {
+		out := append([]rel{}, rs...)
+		switch ord.Intn(4) {
+		case 1: // reversed
+			for i, j := 0, len(out)-1; i < j; i, j = i+1, j-1 {
+				out[i], out[j] = out[j], out[i]
+			}
+		case 2: // rotated
+			if len(out) > 1 {
+				k := 1 + ord.Intn(len(out)-1)
+				out = append(append([]rel{}, out[k:]...), out[:k]...)
+			}
+		case 3: // any order
+			for i := len(out) - 1; i > 0; i-- {
+				j := ord.Intn(i + 1)
+				out[i], out[j] = out[j], out[i]
+			}
+		}
+		return out
+	}
+	b.put("word/_rels/document.xml."+relsExt, relsXML(permute(b.docRel)))
 
 	// ---- package level
 	// the ids of the package-level relationships follow the same conventions as those of the main part: dense from
@@ -395,7 +418,7 @@ func Build(seed uint64, flags int) *Result {
 		b.ovr["/docProps/core.xml"] = "application/vnd.openxmlformats-package.core-properties+xml"
 		b.ovr["/docProps/app.xml"] = "application/vnd.openxmlformats-officedocument.extended-properties+xml"
 	}
-	b.put("_rels/."+relsExt, relsXML(pkgRels))
+	b.put("_rels/."+relsExt, relsXML(permute(pkgRels)))
 	var ct strings.Builder
 	ct.WriteString(`<?xml version="1.0" encoding="UTF-8" standalone="yes"?>` + "\n" + `<Types xmlns="http://schemas.openxmlformats.org/package/2006/content-types">`)
 	dk := make([]string, 0, len(b.defs))
